@@ -1307,17 +1307,21 @@ func (p *constructPlan) processConstructClause(cc *semantic.ConstructClause, tbl
 	return t, err
 }
 
-func (p *constructPlan) Execute(ctx context.Context) (*table.Table, error) {
+func (p *constructPlan) Execute(ctx context.Context) (rtbl *table.Table, rerr error) {
 	tbl, err := p.queryPlan.Execute(ctx)
 	if err != nil {
 		return nil, err
 	}
 	// The buffered channel has capacity to accommodate twice the amount of triples stored in a single call.
 	tripChan := make(chan *triple.Triple, 2*p.bulkSize)
-	done := make(chan bool)
+	// done carries the first error found while updating the output graphs (nil if none).
+	done := make(chan error)
 
 	go func() {
-		var ts []*triple.Triple
+		var (
+			ts   []*triple.Triple
+			uErr error
+		)
 		updateFunc := func(g storage.Graph, d []*triple.Triple) error {
 			gID := g.ID(ctx)
 			nTrpls := len(d)
@@ -1340,24 +1344,34 @@ func (p *constructPlan) Execute(ctx context.Context) (*table.Table, error) {
 				return g.AddTriples(ctx, d)
 			}
 		}
+		// flush sends the pending triples to the output graphs. Once an update
+		// has failed the remaining triples are only consumed, not written.
+		flush := func() {
+			if uErr == nil {
+				uErr = update(ctx, ts, p.stm.OutputGraphNames(), p.store, updateFunc)
+			}
+			ts = []*triple.Triple{}
+		}
 		for elem := range tripChan {
 			ts = append(ts, elem)
 			if len(ts) >= p.bulkSize {
-				update(ctx, ts, p.stm.OutputGraphNames(), p.store, updateFunc)
-				ts = []*triple.Triple{}
+				flush()
 			}
 		}
 		if len(ts) > 0 {
-			update(ctx, ts, p.stm.OutputGraphNames(), p.store, updateFunc)
+			flush()
 		}
-		done <- true
+		done <- uErr
 	}()
 	// On every exit path, errors included, tell the writer that no more triples
 	// follow and wait until it has stored what it received; otherwise it stays
-	// blocked on tripChan forever.
+	// blocked on tripChan forever. A failed update is reported unless building
+	// the triples failed first.
 	defer func() {
 		close(tripChan)
-		<-done
+		if uErr := <-done; uErr != nil && rerr == nil {
+			rtbl, rerr = nil, uErr
+		}
 	}()
 
 	for _, cc := range p.stm.ConstructClauses() {
